@@ -77,17 +77,17 @@ def dep_callable(name, co):
 
 # how a parameter may depend on the conditioning value: shape-like parameters and log-scale parameters get bounded /
 # slowly growing functions, so that chains of conditional variables stay inside the floating-point range
-PCLASS = {("W", "alpha"): "scale", ("W", "beta"): "shape", ("LN", "mu"): "log", ("LN", "sigma"): "shape",
+PCLASS = {("W", "alpha"): "scale", ("W", "beta"): "shape", ("W", "gamma"): "lower", ("LN", "mu"): "log", ("LN", "sigma"): "shape",
           ("NF", "mu_norm"): "scale", ("NF", "sigma_norm"): "scale", ("EW", "alpha"): "scale", ("EW", "beta"): "shape",
           ("EW", "delta"): "shape", ("GG", "m"): "shape", ("GG", "c"): "shape", ("GG", "lambda_"): "scale",
           ("N", "mu"): "loc", ("N", "sigma"): "shape", ("VM", "kappa"): "shape", ("VM", "mu"): "angle",
-          ("SW", "c"): "shape", ("SW", "scale"): "scale", ("SW", "loc"): "loc"}
+          ("SW", "c"): "shape", ("SW", "scale"): "scale", ("SW", "loc"): "lower"}
 
 
 def rand_dep(rng, pclass="scale", allow_const=False):
     u = rng.uniform
     kinds = {"scale": ["lin", "pw", "asym", "sat"], "shape": ["asym", "sat"], "log": ["asym", "lnsq", "sat"],
-             "loc": ["lin", "asym"], "angle": ["angle"]}[pclass] + (["const"] if allow_const else [])
+             "loc": ["lin", "asym"], "angle": ["angle"], "lower": ["asym", "sat", "lin"]}[pclass] + (["const"] if allow_const else [])
     k = rng.choice(kinds)
     if k == "lin":
         return ["dep", "lin", [u(0.3, 2.0), u(0.1, 0.8)]]
@@ -138,7 +138,7 @@ def rand_dim(rng, fam, cond, allow_const=False):
     if not dep_names:
         dep_names = [rng.choice(names)]
     for n in names:
-        if n in dep_names and not (fam == "W" and n == "gamma") and not (fam == "SW" and n == "loc"):
+        if n in dep_names:
             params[n] = rand_dep(rng, PCLASS[(fam, n)], allow_const=allow_const)
         else:
             params[n] = ["fix", base[n]]
